@@ -241,6 +241,21 @@ func jobsFor(prop, tier string) []*Job {
 		add(&Job{Name: "ratelimit", Pkg: "ratelimit", Harness: "VerifC09TokenLimiter", Grid: 1e9, Bounds: bd})
 		add(&Job{Name: "cbreaker", Pkg: "cbreaker", Harness: "VerifC09Breaker", Grid: 1e9, Bounds: bd})
 		add(&Job{Name: "ttlmap", Pkg: "internal/holsterv4/collections", Harness: "VerifC09TTLMap", Grid: 1e9, Params: p("t0span", 3), Bounds: bd})
+	case "C11":
+		names := []string{"raw", "hash", "aes", "aes-ttl", "fallback(raw,hash)", "fallback(hash,aes-ttl)"}
+		for kind := 0; kind < 6; kind++ {
+			add(&Job{Name: "O1O2-codec/" + names[kind], Pkg: "roundrobin", Harness: "VerifC11Codec", Grid: 1e9, Params: p("kind", kind),
+				Bounds: "cookie codec " + names[kind] + ": universe of 4 server URLs (userinfo, query containing '|', port, escaped path), every non-empty pool subset (symbolic), cookie age symbolic within the ttl; AES-GCM replaced by an authenticated stand-in, crypto/rand by a fixed reader"})
+		}
+		for kind := 0; kind < 6; kind += 1 {
+			for rb := 0; rb < 2; rb++ {
+				if !thorough && (kind == 2 || kind == 4) {
+					continue
+				}
+				add(&Job{Name: fmt.Sprintf("O3-routing/%s,rebalancer=%d", names[kind], rb), Pkg: "roundrobin", Harness: "VerifC11Routing", Grid: 1e9, Params: p("kind", kind, "rebalancer", rb),
+					Bounds: "three servers with symbolic weights 1..3, symbolic rotation state (0..3 warm-up selections), symbolic target server: request without cookie, request with the target's cookie, the same cookie after the target was removed; real http cookie parsing/formatting interpreted"})
+			}
+		}
 	}
 	return js
 }
